@@ -123,3 +123,35 @@ Theorem C03_written_file_history : forall compress decompress c,
     cs_loads st <= N.of_nat (length ops) * (2 * (m_levels m + 2)).
 Proof. exact written_file_history. Qed.
 Print Assumptions C03_written_file_history.
+
+(* ================= clones =================
+   A history over several cursors of one file: MOp i o applies o to cursor i, MClone i copies cursor i into
+   the next free identifier.  On every well-formed store the multi-cursor run returns, for every operation of
+   every cursor, the result the specification determines from THAT cursor's own position (amrun: the
+   position of its original at the time of the clone, then its own operations) — whatever the other cursors,
+   its original included, do in between.  The driver runs mrun / amrun on every history with clones and
+   compares them with its own per-operation bookkeeping. *)
+From Grenad.proofs Require Import ClonesRefine.
+
+Theorem C03_clones : forall ld root levels bstore, wf_store ld root levels bstore ->
+  forall ops ps sts, Forall2 (Rel root bstore levels) ps sts -> madm root levels bstore ps ops ->
+  exists sts' rs, mrun ld root levels sts ops = Done (sts', rs) /\
+    Forall2 (Rel root bstore levels) (fst (amrun (content root levels bstore) ps ops)) sts' /\
+    Forall2 res_ok (snd (amrun (content root levels bstore) ps ops)) rs.
+Proof. exact clones_refine. Qed.
+Print Assumptions C03_clones.
+
+Theorem C03_clones_from_fresh : forall ld root levels bstore, wf_store ld root levels bstore ->
+  forall ops, madm root levels bstore [Fresh] ops ->
+  exists sts' rs, mrun ld root levels [cs_fresh] ops = Done (sts', rs) /\
+    Forall2 res_ok (snd (amrun (content root levels bstore) [Fresh] ops)) rs.
+Proof. exact clones_from_fresh. Qed.
+Print Assumptions C03_clones_from_fresh.
+
+(* a clone is unaffected by what its original does afterwards: position 1, clone, move the original to the
+   last entry, the clone's next is entry 2 *)
+Example C03_clone_example :
+  let es := [([1], [1]); ([2], [2]); ([3], [3])] in
+  snd (amrun es [Fresh] [MOp 0 OFirst; MClone 0; MOp 0 OLast; MOp 1 ONext; MOp 0 OCurrent]) =
+  [Some (Some ([1], [1])); Some (Some ([3], [3])); Some (Some ([2], [2])); Some (Some ([3], [3]))].
+Proof. vm_compute. reflexivity. Qed.
